@@ -3,6 +3,11 @@
 # targets (default: everything) with full .vo compilation.
 set -e
 cd "$(dirname "$0")"
+# one Coq build at a time (several checks / agents may call this concurrently)
+mkdir -p ../.cache
+if [ -z "$RH_COQ_LOCKED" ]; then
+  RH_COQ_LOCKED=1 exec flock ../.cache/coq.lock "$0" "$@"
+fi
 {
   echo "-Q . RH"
   echo "-arg -w -arg -notation-overridden,-deprecated-hint-without-locality,-deprecated-instance-without-locality,-deprecated-hint-rewrite-without-locality"
